@@ -47,14 +47,14 @@ def run_check(prop, repo, extra=()):
     return p.returncode, len(viol), first_detail, round(time.time() - t0, 1), p.stdout[-1500:] + p.stderr[-500:]
 
 
-def mutants(args):
+def mutants(args, benign=False):
     sys.path.insert(0, os.path.join(VERIF, "mutants"))
     import defs
     flt = [a for a in args if a != "notests"]
     do_tests = "notests" not in args
     report = []
     ok_all = True
-    for mu in defs.M:
+    for mu in (defs.B if benign else defs.M):
         if flt and not any(f in mu["name"] or f in mu["props"] for f in flt):
             continue
         dst = os.path.join(SCRATCH_ROOT, "cminx-mut-" + mu["name"])
@@ -83,15 +83,19 @@ def mutants(args):
             det = [p for p, r in row["checks"].items() if r.get("exit") == 1]
             row["detected_by"] = det
             primary = mu["props"][0]
-            good = row["checks"].get(primary, {}).get("exit") == 1 or "skipped" in row["checks"].get(primary, {})
+            if benign:
+                good = all(r.get("exit") == 0 or "skipped" in r for r in row["checks"].values())
+            else:
+                good = row["checks"].get(primary, {}).get("exit") == 1 or "skipped" in row["checks"].get(primary, {})
             ok_all = ok_all and good
             report.append(row)
             print(f"{mu['name']:40s} tests={'pass' if survives else ('FAIL' if survives is not None else '-'):5s} "
-                  + " ".join(f"{p}:{'DETECTED' if r.get('exit') == 1 else ('skip' if 'skipped' in r else 'MISSED rc=' + str(r.get('exit')))}({r.get('seconds', '-')}s)"
+                  + " ".join((f"{p}:{'quiet' if r.get('exit') == 0 else 'FALSE-ALARM rc=' + str(r.get('exit'))}({r.get('seconds', '-')}s)" if benign else
+                              f"{p}:{'DETECTED' if r.get('exit') == 1 else ('skip' if 'skipped' in r else 'MISSED rc=' + str(r.get('exit')))}({r.get('seconds', '-')}s)")
                              for p, r in row["checks"].items()), flush=True)
         finally:
             shutil.rmtree(dst, ignore_errors=True)
-    out = os.path.join(VERIF, "mutants", "REPORT.json")
+    out = os.path.join(VERIF, "mutants", "BENIGN.json" if benign else "REPORT.json")
     prev = []
     if flt and os.path.exists(out):
         with open(out) as f:
@@ -154,6 +158,8 @@ print("DIGESTS " + json.dumps(out))
 def main(argv):
     if argv[0] == "mutants":
         return mutants(argv[1:])
+    if argv[0] == "benign":
+        return mutants(argv[1:], benign=True)
     if argv[0] == "determinism":
         return determinism(argv[1:])
     print(__doc__)
